@@ -25,7 +25,31 @@ CFG = gen.cfg_with(probe_w=1, max_root=5, alt_roots_p=0.3)
 
 def program_strategy(cfg, cache):
     from hypothesis import strategies as _st
-    return _st.one_of(gen.program(cfg, cache), gen.program(cfg, cache), gen.program(cfg, cache), gen.ancestor_pattern_program(cfg, cache))
+    return gen.weighted([(12, gen.program(cfg, cache)), (3, gen.ancestor_pattern_program(cfg, cache)),
+                         (1, gen.inprogress_ancestor_program(cfg, cache))])
+
+
+def drive_inprogress(draw, h, cfg):
+    """Builds of the in-progress-ancestor pattern are outside the reference model's domain: only rolled-back builds are
+    run (the root function raises at its end), with foreign files planted at the target and around it; the C03 clauses
+    (snapshot based) are the only ones reported."""
+    univ = cfg['universe']
+    P = [s for s in h.prog_rel['root'] if s[2] == 'ipa0'][0][1]
+    if draw(st.booleans()):
+        # a committed build of the root variant without the pattern call: a cache and (maybe) an output exist
+        step(h, ['root', 1])
+        step(h, ['build', {}, None])
+        step(h, ['root', 0])
+    for _ in range(draw(st.integers(1, 3))):
+        if h.dead:
+            return
+        if draw(st.sampled_from(range(4))):
+            step(h, ['write', P, draw(st.integers(0, 2))])
+        else:
+            step(h, histprop.draw_ext(draw, h, univ))
+    h.stats['c03_inprogress_ancestor_builds'] += 1
+    h.flags.add('c03_inprogress')
+    step(h, ['build', {}, 0])
 
 
 def plant_paths(h, cfg):
@@ -48,6 +72,8 @@ def plant_paths(h, cfg):
 def drive(draw, h, cfg):
     names = list(h.prog_rel['funcs'])
     univ = cfg['universe']
+    if 'ipa0' in h.prog_rel['funcs']:
+        return drive_inprogress(draw, h, cfg)
     for _ in range(draw(st.integers(0, 2))):
         step(h, histprop.draw_ext(draw, h, univ, bias=False))
     step(h, histprop.draw_build(draw, h, names, fail_p=0.05))
